@@ -119,6 +119,12 @@ def programs(rng, thorough):
             ("passing-test-loop", "", "assert(1 == 1)", "while True {}")]
     for lab, defs, tbody, top in seqs:
         add("seq-" + lab, defs + "\ntest t0 {\n" + tbody + "\n}\n", top)
+    # every test of a file gets the SAME budget: many budget-exhausting tests in a row must cost (number of tests) x budget,
+    # not a growing one
+    many = "fun spin() { while True {} }\n" + "".join("test s%d { spin() }\n" % i for i in range(24))
+    add("seq-many-spinning-tests", many, "1")
+    add("seq-many-recursing-tests", "fun rec(n: Int): Int { 1 + rec(n + 1) }\n" + "".join("test r%d { rec(0) }\n" % i for i in range(12))
+        + "fun spin() { while True {} }\n" + "".join("test s%d { spin() }\n" % i for i in range(12)), "2")
     # --- terminating controls (the harness must accept them)
     add("control-terminates", "", "let i = 0\nwhile i < 100 { i += 1 }\ni", False)
     add("control-error", "", "1 / 0", False)
@@ -129,11 +135,17 @@ USE_GROUP = {"print": "display", "value": "display", "dbg": "display", "eqself":
              "contains": "equality", "drop": "drop"}
 
 
+EXHAUSTION = ("native-stack-overflow", "allocation-failure", "signal-11", "signal-6")
+
+
 def failure_class(label):
-    """Failing input CLASS for known_findings: deep values by what is done with them, else the program."""
+    """Failing input CLASS for known_findings: deep values by what is done with them, exponentially growing values,
+    else the program."""
     parts = label.split("-")
     if parts[0] == "nest":
         return "deep-value-" + USE_GROUP.get(parts[-1], parts[-1])
+    if "doubling" in label:
+        return "exponential-growth"
     if parts[0] == "recursion" and parts[1] == "depth":
         return "recursion-depth"
     return label
@@ -252,7 +264,10 @@ def run(ctx):
         ctx.stat("outcome " + (why if v == "ok" else "BAD " + why))
         if v == "bad":
             klass = failure_class(lab)
-            ctx.violation("C25:%s:%s" % (why.split("-rc-")[0], klass),
+            # memory and native-stack exhaustion show up as an allocation failure, a Rust stack-overflow message, SIGSEGV
+            # or SIGABRT depending on where the process happens to be: one failure kind
+            kind = "memory-or-stack-exhaustion" if why in EXHAUSTION else why.split("-rc-")[0]
+            ctx.violation("C25:%s:%s" % (kind, klass),
                           "sandboxed run of `%s` (%s) ended with %s instead of a result / error / limit error: %s"
                           % (lab, mode, why, (o["stderr"].strip().replace("\n", " | ") or o["stdout"].strip())[-300:]),
                           {"input": o["src"], "cli_command": o["cmd"], "mode": mode, "program": lab,
